@@ -206,3 +206,18 @@ package encoding
 //@   ensures[C03] err == nil && typeis(x, *float32) ==> q.r.pos == old(q.r.pos) + 4
 //@   ensures[C03] err == nil && typeis(x, *float64) ==> q.r.pos == old(q.r.pos) + 8
 //@   ensures[C03] err == nil && typeis(x, *string) ==> q.r.pos == old(q.r.pos) + 4 + len(*unbox(x, *string)) && holdsStr(q.r.data, old(q.r.pos), *unbox(x, *string))
+
+// ---- the Encoder / Decoder interfaces as seen by their users (bus.Params, bus.Response, proxy.Call2)
+// An encoder appends to writers and never rewrites; a failed write is sticky. A decoder advances
+// readers; a short read is sticky (C08). Implementers (qiEncoder, qiDecoder) are verified against
+// these clauses together with their own refinements.
+//@ interface (e Encoder) Encode(x interface{}) (err error)
+//@   trusted
+//@   modifies allof(len), allof(writes), allof(data), allof(wfailed)
+//@   ensures forall ww io.Writer {ww.wfailed} :: (ww.wfailed ==> err != nil || old(ww.wfailed)) && (old(ww.wfailed) ==> ww.wfailed)
+//@   ensures forall ww io.Writer {ww.len} :: ww.len >= old(ww.len)
+//@   ensures forall ww io.Writer, j int {ww.data[j]} :: j < old(ww.len) ==> ww.data[j] == old(ww.data[j])
+//@ interface (d Decoder) Decode(x interface{}) (err error)
+//@   trusted
+//@   modifies everything
+//@   ensures forall rr io.Reader {rr.short} :: (rr.short ==> err != nil || old(rr.short)) && (old(rr.short) ==> rr.short)
